@@ -122,8 +122,11 @@ where
 
     let topo = toposort(&graph, None).map_err(|err| {
         let loc = graph.node_weight(err.node_id()).unwrap();
-        Error::new(Kind::CycleDetected, "cycle in module dependencies")
-            .at(Some(Span::new(loc.clone(), 0..0)))
+        Error::new(
+            Kind::CycleDetected,
+            format!("cycle in module dependencies involving {loc}"),
+        )
+        .at(Some(Span::new(loc.clone(), 0..0)))
     })?;
     for node in topo {
         let loc = graph.node_weight(node).unwrap();
